@@ -182,6 +182,30 @@ def h_reject(ctx, L, t):
     ctx.holds("crc valid over declared octets", crc16(ctx, b[:d]) == 0)
 
 
+def h_big(ctx, t, over):
+    """source data that exactly fills a space packet (length field 0xFFFF, 65542 octets in all), and one octet more;
+    concrete filler, symbolic header fields"""
+    f = tm_fields(ctx)
+    ts = bytes((i * 5 + 1) & 0xFF for i in range(t))
+    data = bytes((i * 7 + 3) & 0xFF for i in range(65527 - t + over))
+    kw = dict(service=f["svc"], subservice=f["sub"], timestamp=ts, apid=f["apid"], seq_count=f["sc"], message_counter=f["mc"],
+              space_time_ref=f["tref"], destination_id=f["dest"], packet_version=f["ver"])
+    e, tm = call(PusTm, source_data=data, **kw)
+    if over:
+        ctx.holds("source data that does not fit a space packet is refused with ValueError", isinstance(e, ValueError), exc_name(e))
+        return
+    if e is not None:
+        ctx.fail("the largest source data that fits a space packet was refused", exc_name(e))
+        return
+    raw = tm.pack()
+    ctx.holds("largest packet: 65542 octets, length field 0xFFFF, packet_len == len(pack)",
+              sym_and(len(raw) == 65542, tm.packet_len == 65542, raw[4] == 0xFF, raw[5] == 0xFF,
+                      raw[13 + t:65540] == ctx.bytes_of(list(data))))
+    o = PusTm(source_data=b"", **kw)
+    e, _ = call(setattr, o, "tm_data", data)
+    ctx.holds("the same source data assigned afterwards is accepted too", e is None and sym_and(o.packet_len == 65542), exc_name(e))
+
+
 def h_consts(ctx):
     ctx.holds("PUS_TM_TIMESTAMP_OFFSET == 13", PUS_TM_TIMESTAMP_OFFSET == 13)
     raw = ctx.octets("raw", 8)
@@ -212,6 +236,10 @@ def cases(tier):
         for side in ("neg", "big", "edge"):
             cs.append(Case("refuse-%s-%s" % (which, side), "refuse", h_refuse, dict(which=which, side=side),
                            bounds="%s %s" % (which, side)))
+    for t in tier_pick(tier, (0, 7), (0, 1, 7, 12)):
+        for over in (0, 1):
+            cs.append(Case("limit-t%d-over%d" % (t, over), "limit", h_big, dict(t=t, over=over),
+                           bounds="timestamp %d octets, concrete filler of %d octets, all header field values" % (t, 65527 - t + over)))
     cs.append(Case("consts", "consts", h_consts, bounds="constants / service_from_bytes on 8 arbitrary octets"))
     for t in tier_pick(tier, (0, 2, 7), (0, 1, 2, 7)):
         for L in range(0, 6 + 7 + t + 2 + tier_pick(tier, 2, 4)):
